@@ -5,11 +5,21 @@ META = dict(_M)
 CLASSES = ["contracts.C18_all:GenerateFromHJK", "contracts.C18_all:ExtractAndParts", "contracts.C18_all:Verdicts", "contracts.C18_all:IneqProjection", "contracts.C18_jump:JumpOperators"]
 
 
+def _native(fn, **kw):
+    from . import C18_native as C
+    return getattr(C, fn)(**kw)
+
+
 def jobs(tier, seed):
-    return e2_jobs("C18", CLASSES, tier, seed)
+    from qverif.core.runner import Job
+    js = e2_jobs("C18", CLASSES, tier, seed)
+    # bounded stand-in (native floats): the random generators are physical generators
+    js.append(Job("C18/random-lindbladian-generators (instances)", "contracts.C18:_native",
+                  dict(fn="job_random_lindbladians", tier=tier, seed=seed, prop="C18"), timeout_s=900.0))
+    return js
 
 
 CLAIM = {'engine': 'E2-symtwin', 'level': 'proof',
  'text': 'Generators built from symbolic Hermitian H, J, K (all four builders, slow and sparse helper variants) are proved to have the HS matrix of the GKSL action written on operators; extracting (H, J, K) and the H/J/K/D parts from a generator is proved to invert the construction and to sum to the whole; is_tp <=> first row within atol, is_cp <=> K PSD (spectrum trusted), the equality projection zeroes exactly the first row, the inequality projection returns the generator of (H, J, sum max(w_k,0) v_k v_k^dagger) for the library eigenpairs of K, every part in the default Hermitian-basis mode is the HS matrix of its own map and the dissipator part is J part + K part, to_gate is expm of the HS matrix, the variable round trip on the rows that carry variables; generators built from symbolic jump operators act as sum c rho c^dagger - 1/2 {c^dagger c, rho}. 1 qubit and 1 qutrit.',
- 'note': 'all-inputs@config (1 qubit, 1 qutrit). Not decided: CPTP-ness of the exponential of a physical generator (Lindblad theorem T4 assumed, expm opaque); that the inequality projection is the positive part rests on numpy.linalg.eig\'s contract for Hermitian input (V unitary, V diag(w) V^dagger == K: assumed, eig modelled as opaque for Hermitian input only); time/strength scaling of the random generators. Floats as reals. Observation outside the property statement (no clause, not claimed): with on_para_eq_constraint=True convert_var_to_effective_lindbladian inserts the row (1,0,..,0) -- the gate convention -- where a trace-preserving generator has a zero first row.',
+ 'note': 'all-inputs@config (1 qubit, 1 qutrit). Not decided: CPTP-ness of the exponential of a physical generator (Lindblad theorem T4 assumed, expm opaque); that the inequality projection is the positive part rests on numpy.linalg.eig\'s contract for Hermitian input (V unitary, V diag(w) V^dagger == K: assumed, eig modelled as opaque for Hermitian input only); time/strength scaling of the random generators. Bounded stand-in (never counted as proved): the RANDOM generators of the simulation layer (random H part, random dissipator of a given strength) are evaluated natively on seeded draws (1 qubit, 1 qutrit, three strength settings): trace preserving, K positive semidefinite, exp(L) CPTP, noisy object physical. Floats as reals. Observation outside the property statement (no clause, not claimed): with on_para_eq_constraint=True convert_var_to_effective_lindbladian inserts the row (1,0,..,0) -- the gate convention -- where a trace-preserving generator has a zero first row.',
  'technique': 'contract-based deductive verification (symbolic execution of the real source -> VCs, normaliser + z3)'}
